@@ -26,7 +26,11 @@ for f in json.load(open('/verif/known_findings.json'))['findings']:
     if f['status']=='fixed': print(f['id'], f['property'], f['commit'])
 PY
   while read -r id prop commit; do
-    git -C /repo show "$commit" -- src | git -C /repo apply -R || { echo "$id: cannot revert $commit"; continue; }
+    if [ -f "selftest/revert-$id.diff" ]; then
+      git -C /repo apply "selftest/revert-$id.diff" || { echo "$id: cannot apply selftest/revert-$id.diff"; continue; }
+    else
+      git -C /repo show "$commit" -- src | git -C /repo apply -R || { echo "$id: cannot revert $commit"; continue; }
+    fi
     run_one "revert-$id-$commit" "$prop"
     git -C /repo checkout -- .
   done < /tmp/selftest-fixes.txt
